@@ -349,7 +349,9 @@ def handle (line : String) : String :=
     match unhx h, parseOracle o with
     | some text, some es => parseOut (mkOracle es []) es text
     | _, _ => "bad-op"
-  | [['r','t'], p, c, ob, lim, off, o, rm, recs] =>
+  | [['r','t'], p, c0, ob, lim, off, o, rm, recs] =>
+    -- "C:" = the query object was checked once before the condition was set: no effect on a fresh Check
+    let c := match c0 with | 'C' :: ':' :: r => r | _ => c0
     let tree : Option (Option Tree) := if c = ['-'] then some none else
       match pTree c with | some (t, []) => some (some t) | _ => none
     match unhx p, tree, unhx ob, intOf lim, intOf off, parseOracle o, parseRm rm, parseRecs recs with
